@@ -419,6 +419,25 @@ func (c *hCtx) checkFastVsSeq() {
 			}
 		}
 	}
+	// the same stream delivered in short reads that straddle sample boundaries (chunk sizes that do not divide the sample
+	// size): the parallel variant must still agree with its sequential twin reading the stream whole (seed R8-C)
+	for _, w := range workflows(c.req.Budget) {
+		if !w.fast || w.bytes != 20*2500 {
+			continue
+		}
+		seq := all[w.seqOf]
+		data := allPassStream(c.req.Seed+11, 20, 2500)
+		a := runWF(seq.f, &sliceReader{b: data, failAt: -1}, limitFor(w))
+		for _, ch := range []int{7, 999, 4096} {
+			ch := ch
+			b := runWF(w.f, safeReader(&sliceReader{b: data, failAt: -1, chunk: func() int { return ch }}), limitFor(w))
+			c.resp.Cases[name]++
+			if a.ok != b.ok || itemOf(a.err) != itemOf(b.err) {
+				c.report(name, map[string]interface{}{"fast": w.name, "stream": "all-passing stream", "read_chunk": ch, "seed": c.req.Seed}, b.String(), "same verdict and failing item as "+seq.name+": "+a.String())
+				return
+			}
+		}
+	}
 	// a linear-feedback stream (complexity 89) that the first twelve items accept: only item 13 can reject it
 	for _, w := range workflows(c.req.Budget) {
 		if w.name != "PeriodDetectFast" {
